@@ -24,7 +24,7 @@ CHECKS['C06'] = {
 }
 
 CHECKS['C07'] = {
-    'text': 'SpectrumImpl.tla (mechanism of psd.py: modified flag, cached vector + layout + scaling count, Range copies) is model-checked against the envelope SpectrumAbs.tla (invariants Fresh/LayoutOK/LengthOK/DfOK/FlagSound and the refinement Impl => Abs) over the complete finite state graph, i.e. for histories of every length; every edge of that graph is executed on real objects (spec->code) and every executed operation, plus long random walks over all 12 estimator classes x real/complex, is recorded and validated by TLC against the envelope (SpectrumTrace.tla, code->spec). A read is identified by comparison with the PSD of freshly constructed real objects.',
+    'text': 'SpectrumImpl.tla (mechanism of psd.py: modified flag, cached vector + layout + scaling count, Range copies) is model-checked against the envelope SpectrumAbs.tla (invariants Fresh/LayoutOK/LengthOK/DfOK/FlagSound and the refinement Impl => Abs) over the complete finite state graph, i.e. for histories of every length; every edge of that graph is executed on real objects (spec->code) and every executed operation, plus long random walks over all 12 estimator classes x real/complex, is recorded and validated by TLC against the envelope (SpectrumTrace.tla, code->spec). A read is identified by comparison with the PSD of freshly constructed real objects. SpectrumPair.tla adds the frame condition for two objects alive together (TLC: Frame, OwnAxis), validated on interleaved walks over two real objects; a configuration the estimator refuses must stay refused on the next read.',
     'design_ref': 'DESIGN.md 2.2, 3/C07',
     'note': 'Bounded alphabets (2 data vectors of length 16/20, 2-4 values per attribute); attributes outside the list of C07 (NW, NSIG, criteria, ...) are not assigned; psd assignment is outside the histories; datatype-changing data assignments occur in the random walks and directed scripts only (the state graphs are per datatype). Trusted: TLC, the parsers, vector matching at rtol 1e-9.',
     'technique': 'TLA+ envelope + mechanism model, TLC refinement check, state-graph edge replay on real objects, TLC trace validation of recorded executions',
